@@ -52,8 +52,11 @@ ALL_FORMS = ['__all__ = ["a"]', '__all__ = ["a", "b"]', '__all__ += ["b"]']
 UNSUPPORTED = ["del a", "z, y = 1, 2", "a.x = 1", "z[0] = 1", "global a", "(z := 1)", "match a:\n    case _:\n        z = 1", "type Z = int",
                "assert a", "a", "lambda: a", "[z for z in a]", "async with a as z:\n    pass", "while False:\n    break\nelse:\n    z = 1"]
 CLASS_BODIES = ["pass", "doc", "attr", "method", "init", "init-cond", "nested", "decorated"]
-BLOCK_KINDS = ["if", "if-else", "tc", "tc-else", "tc-nested-if", "typing.tc", "try-except", "try-full", "for", "while", "with"]
-ARMS = {"if": 1, "if-else": 2, "tc": 1, "tc-else": 2, "tc-nested-if": 2, "typing.tc": 1, "try-except": 2, "try-full": 4, "for": 1, "while": 1, "with": 1}
+BLOCK_KINDS = ["if", "if-else", "tc", "tc-else", "tc-nested-if", "typing.tc", "try-except", "try-full", "for", "while", "with",
+               # the guard written one level down (inside a plain if / a try), and spelled through an import alias
+               "if-then-tc", "try-then-tc", "alias.tc", "renamed-tc"]
+ARMS = {"if": 1, "if-else": 2, "tc": 1, "tc-else": 2, "tc-nested-if": 2, "typing.tc": 1, "try-except": 2, "try-full": 4, "for": 1, "while": 1, "with": 1,
+        "if-then-tc": 2, "try-then-tc": 1, "alias.tc": 1, "renamed-tc": 1}
 
 
 def leaves(names=("a", "b"), full=True):
@@ -298,6 +301,20 @@ def render_stmt(r: R, s, ind, ctx, scope):
             arm(arms[0], ind + 1, "if", g)
             r.emit("else:", ind)
             arm(arms[1], ind + 1, "if", g)
+        elif kind in ("alias.tc", "renamed-tc"):
+            r.emit("if t.TYPE_CHECKING:" if kind == "alias.tc" else "if TC:", ind)
+            arm(arms[0], ind + 1, "if", True)
+        elif kind == "if-then-tc":
+            r.emit("if z:", ind)
+            r.emit("if TYPE_CHECKING:", ind + 1)
+            arm(arms[0], ind + 2, "if", True)
+            arm(arms[1], ind + 1, "if", g)
+        elif kind == "try-then-tc":
+            r.emit("try:", ind)
+            r.emit("if TYPE_CHECKING:", ind + 1)
+            arm(arms[0], ind + 2, "if", True)
+            r.emit("except ImportError:", ind)
+            r.emit("pass", ind + 1)
         elif kind in ("tc", "typing.tc"):
             r.emit("if TYPE_CHECKING:" if kind == "tc" else "if typing.TYPE_CHECKING:", ind)
             arm(arms[0], ind + 1, "if", True)
@@ -357,7 +374,7 @@ def render_seq(r: R, stmts, ind, ctx, scope):
     return ev
 
 
-HEAD = "import functools, typing, some, dataclasses\nfrom typing import TYPE_CHECKING, ClassVar\n"
+HEAD = "import functools, typing, some, dataclasses\nimport typing as t\nfrom typing import TYPE_CHECKING, ClassVar\nfrom typing import TYPE_CHECKING as TC\n"
 
 
 def build(case):
@@ -554,7 +571,7 @@ def _setup():
 def judge_scope(acc, case, src, lines, obj, events, path, scope_kind, ctxkey):
     """Compare griffe object `obj` (module or class) with the interpretation of `events`."""
     members, imports, exports, either = interpret(events)
-    header = {"functools", "typing", "some", "dataclasses", "TYPE_CHECKING", "ClassVar"} if scope_kind == "module" and path == "m" else set()
+    header = {"functools", "typing", "some", "dataclasses", "TYPE_CHECKING", "ClassVar", "t", "TC"} if scope_kind == "module" and path == "m" else set()
     # z, y, Z are only bound by the "unsupported" statements (some of which Griffe does descend into): not judged
     got_names = [n for n in obj.members if n not in header and n not in ("z", "y", "Z")]
     exp_names = list(members)
@@ -618,7 +635,7 @@ def judge_scope(acc, case, src, lines, obj, events, path, scope_kind, ctxkey):
         if kind == "class":
             judge_scope(acc, case, src, lines, m, e.get("body", []), f"{path}.{n}", "class", ctxkey + "/nested")
     # imports map / exports
-    got_imports = {k: v for k, v in obj.imports.items() if k not in ("functools", "typing", "some", "dataclasses", "TYPE_CHECKING", "ClassVar")} if scope_kind == "module" else dict(obj.imports)
+    got_imports = {k: v for k, v in obj.imports.items() if k not in ("functools", "typing", "some", "dataclasses", "TYPE_CHECKING", "ClassVar", "t", "TC")} if scope_kind == "module" else dict(obj.imports)
     if got_imports != imports:
         acc.violation(f"imports/{scope_kind}", f"{path}.imports {got_imports} vs {imports}", {"case": case, "source": src}, None, size=len(src))
     if scope_kind == "module":
